@@ -802,7 +802,10 @@ def handleMethAlias (id : String) (t : List String) : Option (List String × Nat
             if !(showDec m.1 == i0 && showDec m.2 == f0) then res := merge res ([s!"{id} MISMATCH methalias modf model= {showDec m.1},{showDec m.2}"], 1, 0)
           | _, _ => pure ()
         else
-          if a != b then res := merge res (propfail id "C05" s!"Decimal.{name} in place differs from a fresh destination")
+          if a != b then
+            res := merge res (propfail id "C05" s!"Decimal.{name} in place differs from a fresh destination")
+            -- the two calls differ only in what the destination held before (the operand itself / a junk value)
+            res := merge res (propfail id "C06" s!"Decimal.{name}: the result depends on the previous contents of the destination")
           let m : Option String := match name with
             | "neg" => some (showDec x.negD)
             | "abs" => some (showDec x.absD)
